@@ -240,9 +240,10 @@ def straddle_history(nver=40, cmp=0):
            'bloom': 10, 'cache': -1, 'mmap': 0, 'reuse_logs': 0, 'comparator': cmp, 'paranoid': 0}
     A, K, Z = '61', '6b', '7a'
     if cmp == 1: A, Z = Z, A          # reverse comparator: keep "A" before K in comparator order
+    if cmp == 2: cfg['bloom'] = 0     # case-insensitive comparator: the versions of the one user key are spelled 'k' and 'K' in turn
     ops = ['open', 'put %s @10:1' % A, 'put %s @10:2' % Z]
     for i in range(nver):
-        ops.append('put %s @60000:%d' % (K, i % 256)); ops.append('snap')
+        ops.append('put %s @60000:%d' % (('4b' if (cmp == 2 and i % 2) else K), i % 256)); ops.append('snap')
     ops += ['flush', 'layout', 'crange 0 * *', 'layout', 'get %s -' % K, 'get %s 3' % K, 'get %s %d' % (K, nver - 2),
             'crange 1 %s %s' % (A, A), 'layout', 'get %s -' % K, 'get %s 3' % K, 'get %s %d' % (K, nver // 2), 'scan -', 'scan 5',
             'crange 2 %s %s' % (A, A), 'layout', 'get %s -' % K, 'get %s 7' % K, 'scan -']
